@@ -247,11 +247,10 @@ func streamLabels(plans []streamPlan, out streamsOutcome, frameMax int) (labels 
 			if dp.Total > 262144 {
 				add("len:>window")
 			}
-			if dp.Total > frameMax {
+			if small, _ := simReads(dp, dp.frames(frameMax), 0); small || dp.Total > frameMax {
 				nontrivial = true
 			}
 			if out.rd[i][d].small {
-				nontrivial = true
 				add("read<pending")
 			}
 			if out.rd[i][d].zeroReads > 0 {
@@ -264,13 +263,17 @@ func streamLabels(plans []streamPlan, out streamsOutcome, frameMax int) (labels 
 		if len(p.Fwd.Writes) == 0 || len(p.Rev.Writes) == 0 {
 			add("closewrite-without-any-write")
 		}
+		if p.Fwd.Total != p.Rev.Total {
+			// the shorter direction is half-closed while the longer one still flows
+			nontrivial = true
+			add("half-close:unequal-directions")
+		}
 	}
 	if openers[0] > 0 && openers[1] > 0 {
 		add("both-sides-open")
 	}
 	if out.readAfterCloseWrite > 0 {
-		nontrivial = true
-		add("half-close-then-reads")
+		add("observed:bytes-read-after-own-CloseWrite")
 	}
 	return labels, nontrivial
 }
@@ -319,7 +322,7 @@ func muxedOpeners(conns [2]network.MuxedConn) ([2]streamOpener, [2]streamAccepto
 func TestL4YamuxStreams(t *testing.T) {
 	defer noteFailure(t)
 	name := t.Name()
-	hx.Check(t, 500, 16000, 0, func(rt *rapid.T) {
+	hx.Check(t, 1500, 36000, 0, func(rt *rapid.T) {
 		c := &muxCase{Layer: "yamux"}
 		c.Key = rapid.Uint64().Draw(rt, "key")
 		c.Cap = rapid.SampledFrom(capSizes).Draw(rt, "cap")
